@@ -1671,3 +1671,15 @@ def run(chk, F):
     green = rule_r3(chk, c, roles, F)
     rule_r4(chk, c, roles)
     rule_r5(chk, c, roles, green)
+    chk.assumptions += [
+        "PARTIAL: decides the structural conservation laws of the lossless-tree mechanism (who may write the cursor "
+        "state; Δtoken_idx == Δadvances + Δleading per cursor primitive; one token per Advance and child-length "
+        "pairing in the replay; lexer start/offset discipline; offset/child-length pairing in the red tree). It does "
+        "NOT decide: that parse_file ends with every token advanced (leading == 0 at EOF) — the replay's final length "
+        "assertion turns that into a panic, which is C06's subject; open/close balance; error spans lying inside the "
+        "text; re-parse idempotence; integer truncation/overflow (u32 offsets, usize subtraction) — arithmetic is "
+        "over the integers; labelled break/continue targets in the manual descents (the facts carry no labels)",
+        "calls from a cursor primitive into functions that reach another primitive are taken as conservation-neutral "
+        "(each primitive is proven separately: partial-correctness induction over terminating executions)",
+        "std functions in rules/c16_sym.py IDENTITY/TRY_CONV/UNWRAP and STR_COPY are taken at their documented meaning",
+    ]
